@@ -166,8 +166,14 @@ func zzC11_cer() {
 	}
 	vAssert(cea.Header.CommandCode == diam.CapabilitiesExchange && cea.Header.CommandFlags&diam.RequestFlag == 0 && cea.Header.ApplicationID == 0, "answer to the capabilities exchange")
 	vAssert(cea.Header.HopByHopID == m.Header.HopByHopID && cea.Header.EndToEndID == m.Header.EndToEndID, "CEA carries the request's hop-by-hop and end-to-end identifiers")
+	vAssert(cea.Header.CommandFlags&diam.ProxiableFlag == m.Header.CommandFlags&diam.ProxiableFlag, "proxiable bit unchanged")
 	rc, ok := zzU32AVP(cea, avp.ResultCode)
 	vAssert(ok, "CEA carries a Result-Code")
+	if vParam("ONLY_MIRROR", 0) == 1 {
+		// C16 reuse: only the mirror properties of the answer
+		vReach("C11_cer")
+		return
+	}
 	vAssert((rc == diam.Success) == accept, "success exactly when origin host and realm are named, no in-band security is required and a common application exists")
 	// identity and addresses on every CEA
 	ohA, e1 := cea.FindAVP(avp.OriginHost, 0)
